@@ -54,7 +54,7 @@ Class(t) ==
   LET p == pc[t]  lc == loc[t] IN
   CASE p = "idle" -> IF idx[t] <= Len(Prog[t]) THEN "call" ELSE "none"
     [] p = "LoadTable" -> IF CurOp(t).op = "reserve" THEN "ld_cnt" ELSE "ld_table"
-    [] p \in {"InitLoadTable", "InitRecheck", "AcLoadTable", "HLoopTable", "PsLoadTable", "PsInitRecheck", "PsRecheck"} -> "ld_table"
+    [] p \in {"InitLoadTable", "InitRecheck", "AcLoadTable", "HLoopTable", "PsLoadTable", "PsInitRecheck", "PsRecheck", "ClrWait"} -> "ld_table"
     [] p \in {"InitLoadSc", "AcLoadSc", "HLoadSc", "XLoadScLeave", "PsLoadSc"} -> "ld_sc"
     [] p \in {"PsCasInit", "PsCasStart"} -> "cas_sc"
     [] p \in {"PsInitRestore", "PsInitStoreSc"} -> "st_sc"
@@ -74,6 +74,9 @@ Class(t) ==
     [] p \in {"GetFwd", "HLoadNt", "ItDescend"} -> "ld_tnt"
     [] p \in {"PutCas", "XCasFwd"} -> "cas_b"
     [] p \in {"TiFast", "LoadVal", "ItYield"} -> "ld_val"
+    [] p = "TfLoadBin" -> "ld_b"
+    [] p = "TfLock" -> "lock"
+    [] p = "TfReval" -> IF tabs[lc.tb].bins[BinI(lc.tb, CurOp(t).k)] # lc.b THEN "unlock" ELSE "st_b"
     [] p = "Walk" -> IF lc.p = NULL \/ node[lc.p].key = CurOp(t).k THEN "local" ELSE "ld_n"
     [] p \in {"Lock", "XLock", "ClrLock", "RtLock"} -> "lock"
     [] p = "Reval" ->
@@ -153,6 +156,8 @@ TNext ==
      \/ /\ E.c = "ret" /\ pc[t] = "idle" /\ RetOk(E, t) /\ l' = l + 1 /\ UNCHANGED <<vars, slotOf, tntOf, taken>>
      \* an unlock the specification folded into the action of the critical section's write
      \/ /\ E.c = "unlock" /\ Class(t) \notin {"unlock", "local"} /\ l' = l + 1 /\ UNCHANGED <<vars, slotOf, tntOf, taken>>
+     \* the yield between two looks at self.table in clear()'s wait for the resize to be published
+     \/ /\ E.c = "spin" /\ pc[t] = "ClrWait" /\ l' = l + 1 /\ UNCHANGED <<vars, slotOf, tntOf, taken>>
      \* get_moved's read of the old table's next_table field where the specification has no step
      \/ /\ E.c = "ld_tnt" /\ Class(t) \notin {"ld_tnt", "local"} /\ l' = l + 1 /\ UNCHANGED <<vars, slotOf, tntOf, taken>>
      \/ /\ E.c \notin {"ret"} /\ Class(t) = E.c /\ l' = l + 1 /\ Step(t) /\ Post(E, t)
